@@ -2,8 +2,10 @@
 import MpsGen.Alg
 import MpsGen.Hash
 import MpsGen.Nonce
+import MpsGen.OT
 import MpsGen.Paillier
 import MpsGen.Pool
 import MpsGen.Protocols
 import MpsGen.Session
 import MpsGen.Sig
+import MpsGen.ZK
